@@ -584,6 +584,9 @@ func C08(c *Ctx) {
 
 	// R08.7
 	c.c08Panics(recovering)
+
+	// R08.11
+	c.c08WaitBalance()
 }
 
 func recvIs(cc *ssa.Call, p *ssa.Parameter) bool {
